@@ -410,6 +410,29 @@ def commit_after_check(ctx, cname, meth):
             where = e.stack[-2].qualname  # a private helper of the detector that update() calls directly: the rejection is update()'s
         ctx.ob("EXC-commit", where, cons if written else "no state written before `raise %s` under %s" % (e.exc, _raise_kind(e)), not written,
                "a rejected call has already stored %s: later accepted inputs are then judged against a rejected one" % ", ".join(written), e, nontrivial=bool(written) or True)
+        # what was written: either (a part of) the rejected input - the known shape of this defect - or something else.  A value
+        # that is neither the entry value nor derived from the call's arguments (a constant, another attribute) *replaces* what
+        # earlier accepted inputs established; that is a different harm and gets its own obligation (and its own construct).
+        foreign = sorted(k for k in written if any(not _entry_or_input(k, lf) for lf in _ite_leaves(e.attrs[k])))
+        if written:
+            ctx.ob("EXC-commit", where, "what a call rejected by `raise %s` under %s has stored is the entry value or taken from its own input" % (e.exc, _raise_kind(e)),
+                   not foreign, "a rejected call overwrites %s with a value that is neither what was there nor taken from the rejected input "
+                   "(e.g. clears what earlier accepted inputs established): %s" % (", ".join(foreign), "; ".join("%s := %s" % (k, T.pretty(e.attrs[k])[:160]) for k in foreign)), e)
+
+
+def _ite_leaves(t, depth=0):
+    a = t.single_atom() if isinstance(t, T.R) else None
+    if a is not None and a[0] == "ite" and depth < 12:
+        return _ite_leaves(a[2], depth + 1) + _ite_leaves(a[3], depth + 1)
+    return [t]
+
+
+def _entry_or_input(k, leaf):
+    if not isinstance(leaf, T.R):
+        return True
+    if leaf == A(k):
+        return True
+    return T.mentions(leaf, lambda a: a[0] == "param")
 
 
 def commit_after_restart(ctx, cname):
